@@ -77,9 +77,17 @@ class Run:
         self.extra = {}
 
     # ------------------------------------------------------------------ Verus
-    def weave(self, demote=()):
+    def weave(self, demote=(), skip=()):
         w = weave.Weaver(REPO, os.path.join(VERIF, 'contracts'), os.path.join(VERIF, 'verus'), demote=demote)
         text = w.weave()
+        if skip:
+            # overlay clauses that no longer compile against this tree (they name a ghost variable whose defining anchor was
+            # lost, or a local that was renamed): dropped like a lost anchor - the properties they carry are UNDECIDED unless
+            # something else fails for them
+            text, dropped = weave.strip_clauses(text, set(skip))
+            self.unsafe_drops = sorted(set(q for _c, _t, q, u in dropped if u and q))
+            for cid, tags, _q, _u in dropped:
+                w.soft_lost.append({'desc': f'clause {cid} no longer compiles against this tree and was dropped', 'props': tags or sorted(set(p for f in w.fn_info for p in (f['props'] or []) if f['listed'] and cid.split(':')[1:2] == [f['qual']]))})
         out = os.path.join(self.scratch, 'uflow.rs')
         open(out, 'w').write(text)
         if w.lost:
@@ -256,8 +264,8 @@ class Run:
         if not modules:
             return
         whole = (self.tier == 'thorough')
-        demote = set()
-        for attempt in range(4):
+        demote = set(); skip = set()
+        for attempt in range(6):
             res, diags, ms, cmdline = self.run_verus(modules, whole=whole)
             vf, other, und = self.classify(diags)
             if not other: break
@@ -273,10 +281,25 @@ class Run:
                         and self.finfo[(fn['file'], fn['qual'])]['disp'] in ('verify', 'nodecreases'):
                     newd.add((fn['file'], fn['qual']))
             if not newd or whole:
+                # front-end errors located inside woven site/loop clauses: drop those clauses and retry
+                bad = set()
+                for d in other:
+                    for sp in d.get('spans', []):
+                        if not sp.get('is_primary'): continue
+                        e = self.lm[sp['line_start']] if sp['line_start'] < len(self.lm) else None
+                        cid = e.get('clause') if e else None
+                        if cid and any(k in cid for k in weave.DROPPABLE): bad.add(cid)
+                        else: bad.add(None)
+                if bad and None not in bad and not (bad <= skip):
+                    skip |= bad
+                    self.notes.append('overlay clauses dropped after a front-end error: ' + ', '.join(sorted(bad)))
+                    w = self.weave(demote=demote, skip=skip)
+                    cone = self.cone()
+                    continue
                 raise Undecided('verus front-end error: ' + other[0].get('rendered', other[0].get('message', ''))[:1500])
             demote |= newd
             self.notes.append('demoted to external_body (front-end error outside the cone): ' + ', '.join(f"{a}::{b}" for a, b in sorted(newd)))
-            w = self.weave(demote=demote)
+            w = self.weave(demote=demote, skip=skip)
             cone = self.cone()
         else:
             raise Undecided('verus front-end errors persist')
@@ -364,6 +387,13 @@ class Run:
                     self.deferred_undecided.append('proof failed in ' + ', '.join(sorted(set(fl['fn'] for fl in nc)))
                                                    + ' which call(s) ' + ', '.join(sorted(set(fl['needs_contract'] for fl in nc)))
                                                    + ': new function(s) without a contract (needs contract, not a violation)')
+        ud = getattr(self, 'unsafe_drops', [])
+        if ud:
+            hit = [fl for fl in self.failures if fl.get('engine') == 'verus' and '::' in fl.get('fn', '') and fl['fn'].split('::', 1)[1] in ud]
+            if hit:
+                self.failures = [fl for fl in self.failures if fl not in hit]
+                self.deferred_undecided.append('proof failed in ' + ', '.join(sorted(set(fl['fn'] for fl in hit)))
+                                               + ' after a loop clause / proof hint of its overlay had to be dropped (it no longer compiles against this tree): needs contract, not a violation')
         soft = [l for l in w.soft_lost if self.prop in l['props']]
         if soft:
             self.notes.append('site anchors lost (clauses dropped): ' + '; '.join(l['desc'] for l in soft))
